@@ -299,7 +299,7 @@ pub fn bases(seed: u64, thorough: bool) -> Vec<(String, Vec<u8>)> {
 fn cpython_bases() -> Vec<(String, Vec<u8>)> {
     let dir = crate::foreign::scratch_root().join(format!("zipmc-{}-c13py", std::process::id()));
     let _ = std::fs::remove_dir_all(&dir);
-    let out = std::process::Command::new("python3").arg(format!("{}/pyref/mkforeign.py", crate::util::VERIF_ROOT)).arg(&dir).output();
+    let out = std::process::Command::new("python3").arg(format!("{}/pyref/mkforeign.py", crate::util::verif_root())).arg(&dir).output();
     let mut v = vec![];
     if let Ok(o) = out {
         if o.status.success() {
